@@ -323,17 +323,24 @@ func runFuzzCase(idx int, c *fuzzCase) (string, []MonitorHit, map[string]int, bo
 		alive = false
 	default:
 	}
+	// what the node printed before it was asked to stop (a stop that falls into a commit can end in
+	// a "leveldb: closed" panic of the commit in flight: a crash like any other, C06's business)
+	before := stderr.String()
 	finish()
 	if !alive {
 		hit("node-died-on-peer-input", fmt.Sprintf("the node process ended during the barrage (%d messages sent): %s", sent, tailOf(stderr.String(), 700)))
 	} else if after < endH+2 {
 		hit("node-wedged-by-peer-input", fmt.Sprintf("no two more blocks within 12 s after %d messages: height %d -> %d (before the barrage %d)", sent, endH, after, startH))
 	}
-	if strings.Contains(stderr.String(), "panic:") || strings.Contains(stderr.String(), "fatal error:") {
-		hit("node-panic at=peer-input", tailOf(stderr.String(), 700))
+	if strings.Contains(before, "panic:") || strings.Contains(before, "fatal error:") {
+		hit("node-panic at=peer-input", tailOf(before, 6000))
 	}
 	if rep == nil && alive {
-		hit("node-wedged-by-peer-input", "the node did not stop in order when asked")
+		if strings.Contains(stderr.String(), "leveldb: closed") {
+			count("stop-fell-into-a-commit")
+		} else {
+			hit("node-wedged-by-peer-input", "the node did not stop in order when asked: "+tailOf(stderr.String(), 1500))
+		}
 	}
 	c.Note = fmt.Sprintf("sent=%d heights %d..%d..%d pex=%v", sent, startH, endH, after, c.Pex)
 	return sxL(sxZ(int64(sent)), sxZ(after-startH)), hits, dist, sent > 0
